@@ -41,12 +41,12 @@ TypePool == <<
   TRef("q", "Foo"),
   TStruct(<<Field("a", TConstRef("p", "Bar", VStr("x")), TRUE), Field("A", WithHints(TString, <<Hint("h1", VStr("v"))>>), FALSE)>>)
 >>
-PNames == {"Foo", "foo", "Bar", "spec"}
+PNames == {"Foo", "foo", "Bar", "spec", "Spec"}
 
 QSchema == SchemaOf("q", <<Obj("q", "Foo", TStruct(<<Field("x", TRef("p", "Foo"), TRUE)>>)),
                            ObjC("q", "Metadata", TString, <<"m">>)>>)
 
-NameIdx == [Foo |-> 0, foo |-> 1, Bar |-> 2, spec |-> 3]
+NameIdx == [Foo |-> 0, foo |-> 1, Bar |-> 2, spec |-> 3, Spec |-> 4]
 Slots == PNames \X (DOMAIN TypePool)                 \* <<name, index into TypePool>>
 SlotKey(x) == NameIdx[x[1]] + 4 * x[2]
 ObjOf(x) == ObjC("p", x[1], TypePool[x[2]], IF x[2] = 1 THEN <<"c0">> ELSE <<>>)
@@ -59,7 +59,7 @@ RECURSIVE SeqKey(_)
 SeqKey(s) == IF s = <<>> THEN 0 ELSE Head(s)[2] + 3 * SeqKey(Tail(s))   \* type indices only: every slice sees every name combination
 InSlice(s) == Len(s) = 1 \/ SeqKey(s) % NSlices = Slice
 PSchemas == {[SchemaOf("p", [i \in DOMAIN s |-> ObjOf(s[i])]) EXCEPT !.entry = e, !.entrytype = IF e = "" THEN TNone ELSE TRef("p", e)] :
-               <<s, e>> \in {<<s2, e2>> \in {x \in SlotSeqs(MaxObjs) : Len(x) >= 1 /\ DistinctNames(x) /\ InSlice(x)} \X {"", "Foo", "spec"} :
+               <<s, e>> \in {<<s2, e2>> \in {x \in SlotSeqs(MaxObjs) : Len(x) >= 1 /\ DistinctNames(x) /\ InSlice(x)} \X {"", "Foo", "spec", "Spec"} :
                                e2 = "" \/ e2 = s2[1][1]}}
 InitIRs == {<<ps, QSchema>> : ps \in PSchemas}
 
